@@ -1,5 +1,6 @@
 (** C05: AST() and the syntax-tree printers reproduce the derivation tree. *)
-From PegV Require Import Base.Tac Spec.Syntax Spec.Peg Spec.Tokens Model.Machine Model.Runtime Model.Gen Proofs.Top Properties.Example Model.Analyses Model.Emit Model.SEmit Model.Exec Proofs.SEmitFile.
+From PegV Require Import Base.Tac Spec.Syntax Spec.Peg Spec.Tokens Model.Machine Model.Runtime Model.Gen Proofs.Top Properties.Example Model.Analyses Model.Emit Model.SEmit Model.Exec Proofs.SEmitFile Spec.WF Model.Optimize Model.Premises Proofs.OptSound Proofs.ParseTop.
+Local Open Scope nat_scope.
 
 (** The stack algorithm of AST() applied to the tokens of a successful parse returns the
     derivation tree with its empty nodes removed: every non-empty token is a node, a node's children
@@ -27,6 +28,27 @@ Theorem C05_generated_code_ast :
         print_tree (live st') = (if 0 =? p then [] else preorder 0 (Rose (r, (0, p)) (prune_forest kids))).
 Proof. exact generated_code_ast. Qed.
 Print Assumptions C05_generated_code_ast.
+
+(** ... and with no side condition and no hypothesis that the semantics has a result (Proofs/ParseTop.v): for every grammar
+    with a well-formedness certificate, every combination of memo table / -inline / -switch ([tree_of sw g] is the
+    optimised tree), every input and every earlier parser state - when the grammar as written accepts a prefix with
+    derivation forest [f], every execution of the call Parse() makes returns true and AST() over the tokens it has recorded
+    is the derivation tree without its empty nodes, children in input order, and the printers walk it in pre-order. *)
+Theorem C05_generated_parser_ast :
+  forall g tab rank, wf_b g tab rank = true -> good_grammar g ->
+  (forall r b, nth_error g r = Some (RBody b) -> ranges_ok b = true) ->
+  grammar_alt2 g -> closed_names g ->
+  forall ptx buf penv, good_buf buf -> valid_buf buf ->
+  forall memo inline sw rb st0,
+    nth_error g 0 = Some rb -> rb <> RNil ->
+    exists n res evs, peg_parse g ptx buf penv n 0 = Some (res, evs) /\
+      forall p f, res = Succ p f ->
+      forall out, xcall buf penv (mk_opts true memo inline (tree_of sw g)) (gen_fn (tree_of sw g) ptx inline) 0 (reset st0) out ->
+        exists st' kids, out = Ret true st' /\ f = [Node 0 0 p kids] /\
+          ast (live st') = (if 0 =? p then None else Some (Rose (0, (0, p)) (prune_forest kids))) /\
+          print_tree (live st') = (if 0 =? p then [] else preorder 0 (Rose (0, (0, p)) (prune_forest kids))).
+Proof. exact generated_parser_ast. Qed.
+Print Assumptions C05_generated_parser_ast.
 
 (** non-vacuity: "aby": R0[0,3) > R1[0,2) > PegText[0,2); the zero-width Action0 token is dropped *)
 Example C05_nonvacuous :
